@@ -42,6 +42,37 @@ def impl_bodies(crate, self_sub):
     return [b for b in crate.bodies if not b.in_test and b.impl_self and self_sub in b.impl_self]
 
 
+_EXP_CACHE = {}
+
+
+def expanded_impl_bodies(crate, self_sub):
+    """impl_bodies with the awaited private async helpers of the same module expanded in place (inline.expand_async); a helper coroutine that
+    was expanded into a caller is analysed there and not on its own"""
+    import inline
+    k = (id(crate), self_sub)
+    if k in _EXP_CACHE:
+        return _EXP_CACHE[k]
+    bodies = impl_bodies(crate, self_sub)
+    out, absorbed = [], set()
+    for b in bodies:
+        try:
+            e = inline.expand_async(crate, b, single_caller=True, depth=3) if b.is_coroutine else b
+        except Exception:
+            e = b
+        if e is not b:
+            for blk in e.blocks:
+                t = blk['term']
+                if t.get('glue') == 'await-call' and t.get('inlined_call'):
+                    p = inline.callee_path(t['inlined_call'])
+                    if p:
+                        absorbed.add(p + '::{closure#0}')
+        out.append(e)
+    # iterate once more so that a helper expanded into its caller does not hide a second level
+    res = [b for b in out if b.path not in absorbed]
+    _EXP_CACHE[k] = res
+    return res
+
+
 def field_stores(body, adt_sub, field=None):
     """assignments whose destination's last field projection is `field` of an ADT containing adt_sub.
     yields (block, idx, stmt)"""
